@@ -237,15 +237,23 @@ def sc_exec_do_task_idle():
     return s, s.te_addr.addressDetails, driver.DoTask(None, actors.Cfg()), s.tp_addr
 
 
-class _DoneFuture:
-    def __init__(self, error=None):
-        self.error = error
+def _DoneFuture(error=None):
+    """a REAL concurrent.futures.Future that has finished (with the task's exception, if any): whatever part of the Future
+    API the handler uses, it sees the documented behaviour"""
+    import concurrent.futures
 
-    def done(self):
-        return True
+    f = concurrent.futures.Future()
+    if error is not None:
+        f.set_exception(error)
+    else:
+        f.set_result(None)
+    return f
 
-    def exception(self, timeout=None):
-        return self.error
+
+# what a failing track preparation task (download, decompression, offset table) may raise
+TASK_ERRORS = [lambda: RuntimeError("download failed"), lambda: TimeoutError("timed out"), lambda: OSError("disk full"),
+               lambda: exceptions.DataError("corrupt"), lambda: __import__("socket").timeout("read timed out"),
+               lambda: __import__("concurrent.futures").futures.TimeoutError(), lambda: __import__("concurrent.futures").futures.CancelledError()]
 
 
 def sc_exec_wakeup_done():
@@ -449,7 +457,7 @@ def forwarding(sl):
     elif kind.startswith("executor"):
         s = _prep_system()
         if kind.endswith("failed task"):
-            s.te.executor_future = _DoneFuture(error=RuntimeError("download failed"))
+            s.te.executor_future = _DoneFuture(error=TASK_ERRORS[concrete(fresh_int("kind_of_task_error", 0, len(TASK_ERRORS) - 1))]())
             s.te.receiveMessage(ta.WakeupMessage(0, None), s.te_addr)
         else:
             s.te.receiveMessage(fail, s.te_addr)
